@@ -13,6 +13,10 @@ CLAIMS = {
    text="Structural clauses of the server state machine decided on every run for all paths of all handlers: session calls only in permitted states (abstract interpretation of Conn.state over the 5 states), credentials only after canAuth()==true (truth table evaluated exhaustively), state writes only after the enabling backend call succeeded and only along RFC 9051 transitions, no command read in Logout, unknown pre-auth command ends in BYE, dispatch table exhaustive. 'other' because these are necessary structural conditions proven statically, not a proof of the whole behaviour (backends are opaque).",
    technique="abstract interpretation of the connection-state field over go/ssa (may-sets, edge refinement, interprocedural) + must-pass-through gate dataflow + exhaustive truth-table evaluation of canAuth",
    design="§4 C05"),
+ "C19": dict(
+   text="SearchCriteria.And is evaluated as an abstract function over order types (each zero-means-unset scalar touched only through comparisons/zero tests/copies, so one representative per ordering decides all values): 6 fields x 9 orderings exhaustive; every field merged; list fields are same-field concatenations; the server's SEARCH parser appends list keys to their own field and folds scalar keys only through And. 'other': the evaluation is exhaustive over the abstract domain and the structural rules cover all sites, but a backend's matcher is outside the analysis.",
+   technique="finite-domain abstract evaluation of And over order types on the typed AST + AST/SSA who-may-write rules on SearchCriteria fields",
+   design="§4 C19"),
 }
 
 NOT_APPLICABLE = {
